@@ -16,6 +16,8 @@ import RModel.Gen.OutputShapes
       member may or may not be present;
     * `run`: sequential interpretation of the guarded event list of a handler; `outcome`: main's Ok/Err arms on top;
     * `intended`: the effect a command line asks for;  an operation that returns Ok has had its effect;
+    * `.fallible s` (a member rendered through `serde_json::to_value(..).unwrap_or(Value::Null)`) is `s` unless the scenario
+      says serialisation fails (`DocCtx.serFails`: some planned path is not valid UTF-8), then it is `null`;
     * no signal arrives: main's interrupted flag is false in every row (`Gen.exitOkInterrupted` is only pinned non-zero);
     * stdout is a pipe in every row (so `rename` without `-y` fails inside `rename_operation` before its prompt), the
       `RENAMIFY_DEBUG_*` variables are unset, clap rejects an invalid argv before any handler runs.
@@ -37,6 +39,7 @@ structure DocCtx where
   replaceEmpty : Bool     -- the replacement term is empty (search mode)
   noMatches : Bool        -- the plan has no content matches
   noRenames : Bool        -- the plan has no path renames
+  serFails : Bool := false  -- a value behind `to_value(..).unwrap_or(Null)` cannot be serialised (a path that is not UTF-8)
   deriving DecidableEq, Repr
 
 inductive Pres3 where
@@ -71,6 +74,7 @@ def conforms (decls : List (Name × TsType)) (shapes : List (Name × JsonShape))
       | some s' => conforms decls shapes c fuel t s'
       | none => false
     | .oneOf ss => ss.all fun s' => conforms decls shapes c fuel t s'
+    | .fallible s' => if c.serFails then conforms decls shapes c fuel t .null else conforms decls shapes c fuel t s'
     | s =>
       match t with
       | .any => true
@@ -314,14 +318,18 @@ def docCtxOf (cmd : Cmd) (noMatches noRenames : Bool) : DocCtx :=
 def expectedTypes (cmd : Cmd) : List (Name × TsType) :=
   Gen.wrapperExpect.filterMap fun e => if e.1 = cmd then some e.2 else none
 
-/-- the document the command emits is a member of every type a wrapper declares for it, in the given scenario -/
-def conformsCmd (cmd : Cmd) (noMatches noRenames : Bool) : Bool :=
+/-- the document the command emits is a member of every type a wrapper declares for it, in the scenario `c` -/
+def conformsCmdIn (cmd : Cmd) (c : DocCtx) : Bool :=
   match emittedDoc cmd with
   | some p =>
     match docShape p with
-    | some s => (expectedTypes cmd).all fun e => conformsGen (docCtxOf cmd noMatches noRenames) e.2 s
+    | some s => (expectedTypes cmd).all fun e => conformsGen c e.2 s
     | none => false
   | none => false
+
+/-- … in the scenarios in which every path is valid UTF-8 -/
+def conformsCmd (cmd : Cmd) (noMatches noRenames : Bool) : Bool :=
+  conformsCmdIn cmd (docCtxOf cmd noMatches noRenames)
 
 /-- scenarios that can differ in the members a command's document has -/
 def docScenarios (cmd : Cmd) : List (Bool × Bool) :=
